@@ -223,10 +223,15 @@ def cmd_try(a):
 def cmd_table(a):
     """Markdown table for DESIGN.md Appendix B: per seeded change the latest run of every check."""
     rows = []
+    try:
+        hist = json.load(open(os.path.join(SEEDED, "HISTORY.json")))
+    except OSError:
+        hist = {}
     for sid in sorted(os.listdir(SEEDED)):
         m = load_meta(os.path.join(SEEDED, sid))
         if not m:
             continue
+        m["history"] = hist.get(sid, m.get("history", ""))
         latest = {}
         for r in m.get("runs", []):
             latest[(r["check"], r["tier"])] = r  # later runs replace earlier ones
